@@ -408,6 +408,6 @@ def run(ctx):
                      'only a 0-byte input is replaced by an empty notebook' if ok else
                      'a corrupt (non-empty) input can be replaced by an empty notebook: the command then reports success on a merge of the wrong content', x)
     from ..signatures import call_compat
-    call_compat(ctx, 'R08.8', ['nbdime.nbmergeapp', 'nbdime.vcs.git.mergedriver', 'nbdime.utils', 'nbdime.args'], 'the command dies with a traceback (non-zero, but for a reason unrelated to conflicts)')
+    call_compat(ctx, 'R08.8', ['nbdime.nbmergeapp', 'nbdime.vcs.git.mergedriver', 'nbdime.utils', 'nbdime.args'] if ctx.tier == 'quick' else ['nbdime.'], 'the command dies with a traceback (non-zero, but for a reason unrelated to conflicts)')
     from ..names import name_binding
-    name_binding(ctx, 'R08.9', ['nbdime.nbmergeapp', 'nbdime.vcs.git.mergedriver', 'nbdime.utils', 'nbdime.args'])
+    name_binding(ctx, 'R08.9', ['nbdime.nbmergeapp', 'nbdime.vcs.git.mergedriver', 'nbdime.utils', 'nbdime.args'] if ctx.tier == 'quick' else ['nbdime.'])
